@@ -469,7 +469,7 @@ impl Participant {
         let mut cipher = Ciphertext::new();
         let parms_id = cipher_context_data.parms_id();
         cipher.resize(&self.context, parms_id, 2);
-        if cipher_context_data.is_ckks() {
+        if cipher_context_data.is_ckks() || cipher_context_data.is_bgv() {
             cipher.set_is_ntt_form(true);
         } else {
             cipher.set_is_ntt_form(false);
